@@ -12,7 +12,7 @@ Code the property is anchored in: {files}. Mechanisms meant to make it hold: {me
 
 TASK: produce TWO independent, realistic changes to the library source (each as its own patch against the worktree HEAD) that BREAK this property while (1) the package still imports, and (2) the existing test suite still passes exactly as before: `cd {wt} && /venv/bin/python -m pytest -q -p no:cacheprovider --timeout=900 molli_test` gives 81 passed / 4 failed on the clean HEAD (the 4 failures test_conformer_to_lib, test_ensemble_lib, test_load_all, test_loads_all are pre-existing and must remain the only failures; run it first on the clean tree to see). Each change must look like a plausible regression a developer could introduce (a refactoring slip, an optimisation, a reordering of statements, an off-by-one, a shortcut on a cached value, a sign/convention slip, a swapped pair of fields, a default masking a value, shared mutable state, ...), not sabotage, and it must need something SPECIFIC to manifest - a multi-step sequence of operations, an unusual but legitimate input (a particular value, size, ordering or combination of fields), a particular configuration, or two cooperating sites that each look fine alone - not something that ordinary everyday use (and the existing tests) would expose at once. The two changes should be different in nature (different code sites / mechanisms). If the clean HEAD already violates the property for some input class, do not rely on that class: your demo must pass on the clean HEAD.
 
-For each change n in {{1,2}} deliver in {wt}/_seeded/<n>/ : patch.diff (git diff of the source change only; must apply with `git apply` to a clean HEAD), demo.py (a small self-contained program using molli's public API; exit code 0 = property holds, non-zero = property violated with a printed explanation; it must FAIL with the patch applied and PASS on the clean HEAD - run both and keep the outputs), and notes.md (what the change is, why the existing tests stay green, what exactly is needed for it to manifest). Leave the worktree's tracked files clean at the end (`git checkout -- .`), keeping only the untracked _seeded directory. Your final message must contain: both patches inline, the demo outputs with and without each patch, and the pytest summary line with each patch applied.'''
+For each change n in {{1,2}} deliver in {wt}/_seeded/<n>/ : patch.diff (git diff of the source change only; must apply with `git apply` to a clean HEAD), demo.py (a small self-contained program using molli's public API; exit code 0 = property holds, non-zero = property violated with a printed explanation; it must FAIL with the patch applied and PASS on the clean HEAD - run both and keep the outputs), and notes.md (what the change is, why the existing tests stay green, what exactly is needed for it to manifest). NEVER use `git stash` (the stash is shared by all worktrees of this repository and other reviewers work in sibling worktrees at the same time): switch between clean and patched trees with `git apply` / `git apply -R` / `git checkout -- .` only. Leave the worktree's tracked files clean at the end (`git checkout -- .`), keeping only the untracked _seeded directory. Your final message must contain: both patches inline, the demo outputs with and without each patch, and the pytest summary line with each patch applied.'''
 os.makedirs('/tmp/prompts', exist_ok=True)
 for l in open('/verif/properties.jsonl'):
     p = json.loads(l)
